@@ -13,13 +13,20 @@ let run_t line =
     (match split_ws lay with
      | "T" :: pls :: lens ->
        let pl = int_of_string pls in
-       let lens = List.map int_of_string lens in
+       let lens = List.map (fun s -> let n = String.length s in
+                             if n > 0 && s.[n - 1] = 's' then int_of_string (String.sub s 0 (n - 1)) else int_of_string s) lens in
        let total = List.fold_left (+) 0 lens in
        let np = (total + pl - 1) / pl in
        let ilist s = if s = "-" || s = "" then [] else List.map int_of_string (split_on ',' s) in
-       let missing = ilist (String.trim miss) in
+       let missing = if String.trim miss = "*" then List.init np (fun i -> i) else ilist (String.trim miss) in
        let pt = split_ws pert in
-       let lose = List.concat_map (fun t -> if String.length t > 5 && String.sub t 0 5 = "lose=" then ilist (String.sub t 5 (String.length t - 5)) else []) pt in
+       let lose = List.concat_map (fun t ->
+           if String.length t > 5 && String.sub t 0 5 = "lose=" then begin
+             let v = String.sub t 5 (String.length t - 5) in
+             if v.[0] = '%' then (let k = int_of_string (String.sub v 1 (String.length v - 1)) in
+                                  List.filter (fun i -> i mod k = 0) (List.init np (fun i -> i)))
+             else ilist v end
+           else []) pt in
        let pt = List.filter (fun t -> not (String.length t >= 5 && String.sub t 0 5 = "lose=")) pt in
        let disk = Array.init np (fun i -> not (List.mem i missing)) in       (* piece valid on disk *)
        let bits = ref (Some (Array.to_list disk)) in
@@ -114,6 +121,8 @@ let run_t line =
   | _ -> "BADCASE"
 
 let () = each_line (fun line ->
+  (* Lq / Tq: the implementation runs the requested check the rtorrent way (quick first); same result on the model *)
+  let line = if String.length line >= 3 && line.[1] = 'q' && line.[2] = ' ' then String.make 1 line.[0] ^ String.sub line 2 (String.length line - 2) else line in
   if String.length line >= 2 && String.sub line 0 2 = "T " then run_t line else
   match split_on '|' line with
   | [head; fls; rs; bads] ->
